@@ -118,6 +118,10 @@ func c14Build(cfg c14Cfg, customize bool) *c14World {
 		if kit.Str(req, "parent", "metadata", "name") != "p1" {
 			return kit.M{"relatedResources": kit.L{}}
 		}
+		if cfg.Cluster {
+			// cluster-scoped parents: selected by NAME, in any namespace (no namespace in the rule)
+			return kit.M{"relatedResources": kit.L{kit.M{"apiVersion": "v1", "resource": "others", "names": kit.L{"r"}}}}
+		}
 		return kit.M{"relatedResources": kit.L{kit.M{"apiVersion": "v1", "resource": "others", "labelSelector": kit.M{"matchLabels": kit.M{"rel": "1"}}}}}
 	})
 	x.Hooks.Handle("/cc/customize", func(hc *world.HookCall) (int, http.Header, []byte, error) {
